@@ -266,6 +266,45 @@ func randomScenario(r *rand.Rand, profile string) scenarioT {
 			total += 3
 		}
 	}
+	if profile == "rebase" {
+		// SetBase again after code has been emitted: outside the domain of Finalize and the listings, but emission,
+		// Len/PC advance and capacity handling must be unaffected
+		var nc []callT
+		for _, c := range calls {
+			if c.M == "Hex" || c.M == "Text" || isLabelMethod(c.M) || c.M == "Label" {
+				continue
+			}
+			nc = append(nc, c)
+			if r.Intn(9) == 0 {
+				nc = append(nc, callT{"SetBase", []interface{}{[]int{0x7E2000, 0x018000, 0x8000, 0, 0x10FFF0}[r.Intn(5)]}})
+			}
+		}
+		sc.Calls = nc
+		size := 0
+		e := newEmitter(-1, sc.Gen)
+		for _, c := range nc { // the dry-run PC restarts at every SetBase: sum the pieces
+			before := e.PC()
+			invoke(e, c)
+			if c.M != "SetBase" && e.PC() > before {
+				size += int(e.PC() - before)
+			}
+		}
+		switch r.Intn(4) {
+		case 0:
+			sc.Cap = size
+		case 1:
+			sc.Cap = size - 1 - r.Intn(4)
+		case 2:
+			sc.Cap = r.Intn(size + 1)
+		default:
+			sc.Cap = size + 8
+		}
+		if sc.Cap < 0 {
+			sc.Cap = 0
+		}
+		sc.Dry = r.Intn(2) == 0
+		return sc
+	}
 	if straight {
 		sc.Cap = 1 << 16
 		if r.Intn(6) == 0 { // a buffer that ends inside the program: the tail must be refused, not silently dropped
@@ -304,6 +343,15 @@ func randomScenario(r *rand.Rand, profile string) scenarioT {
 	// capacity: measured with a real dry-run emitter, then exact / a few bytes short / tiny / generous
 	size := measure(calls, sc.Gen)
 	// sometimes the program is placed so that it ends exactly at (or a few bytes before) the end of its bank
+	if baseAt >= 0 { // Clone/Append may have been inserted before it
+		baseAt = -1
+		for i, c := range calls {
+			if c.M == "SetBase" {
+				baseAt = i
+				break
+			}
+		}
+	}
 	if baseAt >= 0 && size > 0 && size < 0x8000 && r.Intn(5) == 0 {
 		calls[baseAt].A = []interface{}{(1+r.Intn(0x7D))<<16 + 0x10000 - size - []int{0, 0, 1, 3}[r.Intn(4)]}
 	}
